@@ -72,6 +72,29 @@ CLAIMED = {
             'exceptions escape enforce and unevaluable checks deny',
             'z3; bounded token length / structure depth; roles are lists '
             'of strings as the property assumes'),
+    'C13': ('5/C13', 'rule graphs with symbolic reference slots under '
+            'and/or/not: check_rules() / raise_on_violation agree with an '
+            'independent graph analysis (z3 formula over the slot '
+            'variables) for every assignment; graphs reported clean '
+            'evaluate without recursion errors; the validator exit status '
+            'on an enumerated family of small policy files',
+            'z3; slot a walker never inspects stays symbolic, so a skipped '
+            'reference is found by the solver; bounds in the evidence'),
+    'C15': ('5/C15', 'parse(print(T)) prints as T and decides as T (formula '
+            'equivalence over all leaf outcomes / role subsets) for every '
+            'accepted token sequence up to the bound, every list shape, '
+            'seeded trees with explicit same-kind nesting, and whole rule '
+            'sets through Rules.load(str(R))',
+            'z3; leaves without embedded whitespace; http leaves compared '
+            'textually only'),
+    'C16': ('5/C16', 'reply bodies as symbolic strings (all bodies up to '
+            'the bound at once), symbolic status code, injected faults, '
+            'TLS-file situations, both encodings, seven placements of the '
+            'check: allow iff the body stripped of double quotes is True; '
+            'URL, payload, TLS arguments and untouched target checked on '
+            'the recorded request',
+            'z3; requests replaced by a recording stub with the documented '
+            'contract'),
 }
 
 PENDING_REASON = ('check not built yet in this session (work in progress; '
